@@ -91,14 +91,14 @@ theorem handleCoincidentEdgesBelow_safe :
   with skip
   case vc2 => omega
   case vc3 =>
-    rename_i s0 _ m hm pref cur suff hr _ idx s h a b _ _ _ _ _ _ _ _ _ _ _
+    rename_i s0 _ m hm pref cur suff hr _ idx s h a b _ _ _ _ _ _ _ _ _ _ _ _ _
     have := range_split hr
     refine h.le ?_
     simp only [List.length_cons]
     show m - 2 - cur + 1 + 1 ≤ _
     omega
   case vc4 =>
-    rename_i s0 _ m hm pref cur suff hr _ idx s1 _ a b _ _ _ _ _ _ _ _ _ _ _ _ s h
+    rename_i s0 _ m hm pref cur suff hr _ idx s1 _ a b _ _ _ _ _ _ _ _ _ _ _ _ _ _ s h
     have := range_split hr
     refine h.le ?_
     show _ ≤ m - 2 - cur + 1
